@@ -705,6 +705,19 @@ func main() {
 		round3(o)
 		return
 	}
+	if o.Extra == "hunt5only" { // the nested-estimator hunt on its own (mutation trials)
+		res := map[string]interface{}{"found": false}
+		o.N *= 4
+		hunt5(o, nil, res)
+		b, _ := json.MarshalIndent(res, "", " ")
+		os.MkdirAll(o.Out, 0755)
+		os.WriteFile(filepath.Join(o.Out, "hunt.json"), b, 0644)
+		return
+	}
+	if strings.HasPrefix(o.Extra, "round5") {
+		round5(o)
+		return
+	}
 	if o.Replay != "" {
 		replay(o)
 		return
@@ -824,6 +837,15 @@ func replay(o Opts) {
 		Die("replay file has no case: %v", err)
 	}
 	switch rpk.Case.Kind {
+	case "nest", "summ":
+		var rp5 struct {
+			Case *Case5 `json:"case"`
+		}
+		if err := json.Unmarshal(b, &rp5); err != nil || rp5.Case == nil {
+			Die("replay file has no round-5 case: %v", err)
+		}
+		replay5(o, rp5.Case)
+		return
 	case "vnormal", "sid", "siid", "negbin", "logreg", "emnormal":
 		var rp3 struct {
 			Case *Case3 `json:"case"`
